@@ -138,22 +138,22 @@ def build(mix):
                 g.ks_state(4, g.circle(1, (8, 3)), (_th(4, 3), _th(3, 4)))]
         sc.add_objects(g.dynamic_obstacle_from(22, g.rect(4, 2), g.init_state(0, 1, 0.0),
                                                g.trajectory_prediction_from_states(g.rect(4, 2), traj)))
-        occ = [g.rect(2, 1, (3, -3), _th(4, 3)), g.circle(2, (5, -3)), g.polygon([(6, -4), (6, -1), (9, -2), (9, -4)]),
-               g.shape_group([g.rect(2, 1, (10, -3), _th(0, 1)), g.circle(1, (12, -3)),
+        occ = [g.rect(20, 10, (3, -3), _th(4, 3)), g.circle(2, (5, -3)), g.polygon([(6, -4), (6, -1), (9, -2), (9, -4)]),
+               g.shape_group([g.rect(4, 2, (10, -3), _th(0, 1)), g.circle(1, (12, -3)),
                               g.polygon([(13, -4), (14, -2), (15, -4)])])]
         sc.add_objects(g.dynamic_obstacle_from(23, g.rect(2, 1), g.init_state(1, -3, _th(0, 1)),
                                                g.set_based_prediction(occ, 1)))
         sc.add_objects(g.dynamic_obstacle_from(
-            24, g.rect(4, 2), g.uncertain_init_state(g.rect(2, 2, (-5, 5), _th(3, 4)), _th(4, 3), _th(3, 4))))
+            24, g.rect(4, 2), g.uncertain_init_state(g.rect(20, 10, (-5, 5), _th(3, 4)), _th(4, 3), _th(3, 4))))
     if "phantom" in mix:
-        sc.add_objects(g.phantom_obstacle(26, [(1, g.rect(3, 1, (-10, 0), _th(-3, 4))),
+        sc.add_objects(g.phantom_obstacle(26, [(1, g.rect(20, 10, (-10, 0), _th(-3, 4))),
                                                (2, g.polygon([(-12, 2), (-9, 4), (-9, 2)]))]))
     if "environment" in mix:
         sc.add_objects(EnvironmentObstacle(27, ObstacleType.BUILDING, g.polygon([(20, 20), (20, 23), (24, 23), (24, 20)])))
-        sc.add_objects(EnvironmentObstacle(28, ObstacleType.BUILDING, g.rect(3, 2, (26, 14), _th(4, -3))))
+        sc.add_objects(EnvironmentObstacle(28, ObstacleType.BUILDING, g.rect(20, 10, (26, 14), _th(4, -3))))
     # lanelet goal: the polygon of (a twin of) lanelet 2 in a ShapeGroup, as the file readers build lanelet goal positions
     twin = g.network([g.lanelet_from_polylines(2, [(8, 3), (12, 5)], [(8, 1), (12, 3)])])
-    goal31 = GoalRegion([g.goal_state(g.rect(4, 2, (12, 4), _th(3, 4)), _th(4, 3), _th(3, 4)),
+    goal31 = GoalRegion([g.goal_state(g.rect(20, 10, (12, 4), _th(3, 4)), _th(4, 3), _th(3, 4)),
                          g.goal_state(g.shape_group([twin.find_lanelet_by_id(2).polygon])),
                          g.goal_state(None, _th(0, -1), _th(0, 1)),
                          g.goal_state(g.circle(2, (-4, -8))),
@@ -165,33 +165,69 @@ def build(mix):
 
 
 # ---- alpha: stored points / orientations and derived quantities, through public accessors ---------------------------
-def _shape_data(shape, name, der):
-    """-> (kind suffix, pts, oris); records dimensions in der."""
+# walk modes:  "primary"  stored primary data only (centres, orientations, polygon vertices) - the cold "before" snapshot
+#              "touch"    primary + the warm-up: .vertices / .shapely_object / contains_point of every shape are evaluated
+#              "full"     primary + exported rectangle corners (public .vertices) + containment probes + derived quantities
+def _shape_kind(shape):
     from commonroad.geometry.shape import Circle, Polygon, Rectangle, ShapeGroup
-    if isinstance(shape, Rectangle):
-        der.setdefault("rect_dims", []).extend([(name + "/length", shape.length), (name + "/width", shape.width)])
-        return "rect", [tuple(shape.center)], [shape.orientation]
-    if isinstance(shape, Circle):
-        der.setdefault("circle_radius", []).append((name, shape.radius))
-        return "circle", [tuple(shape.center)], []
-    if isinstance(shape, Polygon):
-        der.setdefault("polygon_area", []).append((name, shape.shapely_object.area))
-        return "polygon", [tuple(v) for v in shape.vertices[:-1]], []
-    if isinstance(shape, ShapeGroup):
-        pts, oris = [], []
+    for cls, k in ((Rectangle, "rect"), (Circle, "circle"), (Polygon, "polygon"), (ShapeGroup, "group")):
+        if isinstance(shape, cls):
+            return k
+    raise MachineryError("unknown shape %r" % (shape,))
+
+
+def _touch(shape):
+    """Warm-up of one shape: evaluate the lazily computed / exported planar geometry before the motion."""
+    import numpy as np
+    k = _shape_kind(shape)
+    if k == "group":
+        for s in shape.shapes:
+            _touch(s)
+        return
+    if k != "circle":
+        shape.vertices
+    shape.shapely_object
+    shape.contains_point(np.array(shape.center, dtype=float))
+
+
+def _shape_data(shape, name, der, mode):
+    """-> (kind suffix, pts, oris, corners): corners = exported corner points of the rectangles (mode "full" only)."""
+    import numpy as np
+    k = _shape_kind(shape)
+    if mode == "touch":
+        _touch(shape)
+    if k == "group":
+        pts, oris, corners = [], [], []
         for i, s in enumerate(shape.shapes):
-            _, p, o = _shape_data(s, "%s/%d" % (name, i), der)
+            _, p, o, c = _shape_data(s, "%s/%d" % (name, i), der, "primary" if mode == "touch" else mode)
             pts += p
             oris += o
-        return "group", pts, oris
-    raise MachineryError("unknown shape %r" % (shape,))
+            corners += c
+        return k, pts, oris, corners
+    if mode == "full":
+        der.setdefault("contains_center", []).append(
+            (name, 1.0 if shape.contains_point(np.array(shape.center, dtype=float)) else 0.0))
+    if k == "rect":
+        corners = []
+        if mode == "full":
+            der.setdefault("rect_dims", []).extend([(name + "/length", shape.length), (name + "/width", shape.width)])
+            der.setdefault("rect_area", []).append((name, shape.shapely_object.area))
+            corners = [tuple(v) for v in shape.vertices[:-1]]
+        return k, [tuple(shape.center)], [shape.orientation], corners
+    if k == "circle":
+        if mode == "full":
+            der.setdefault("circle_radius", []).append((name, shape.radius))
+        return k, [tuple(shape.center)], [], []
+    if mode == "full":
+        der.setdefault("polygon_area", []).append((name, shape.shapely_object.area))
+    return k, [tuple(v) for v in shape.vertices[:-1]], [], []          # Polygon: the vertex ring is primary data
 
 
 def _pname(path):
     return "/".join("%s:%s" % (a, b) for a, b in path)
 
 
-def walk(world, ov=None, derived=True):
+def walk(world, ov=None, mode="full"):
     """-> (components, derived): components = list of [kind, path, pts, oris] (floats), derived = {quantity: [(name, value)]}.
     ov maps a path to the object to observe instead of the stored one (objects returned by functional translate_rotate)."""
     from commonroad.common.util import AngleInterval
@@ -200,14 +236,21 @@ def walk(world, ov=None, derived=True):
     sc, pps = world
     ov = ov or {}
     comps, der = [], {}
+    full = mode == "full"
 
-    def state(path, st, kp, ko, shape_kinds=False):
+    def shape_comp(kind, path, shape, name, group_kind=None):
+        k, pts, oris, corners = _shape_data(shape, name, der, mode)
+        kind = group_kind if (group_kind and k == "group") else kind
+        comps.append([kind, path, pts, oris])
+        if corners:
+            comps.append(["rect_corners/" + kind, path, corners, []])
+
+    def state(path, st, kp, ko, group_kind=None):
         st = ov.get(path, st)
         name = _pname(path)
         if getattr(st, "position", None) is not None:
             if isinstance(st.position, Shape):
-                k, pts, oris = _shape_data(st.position, name + "/position", der)
-                comps.append(["goal_lanelet" if (shape_kinds and k == "group") else kp, path, pts, oris])
+                shape_comp(kp, path, st.position, name + "/position", group_kind)
             else:
                 pts = [tuple(st.position)]
                 oris = []
@@ -216,7 +259,8 @@ def walk(world, ov=None, derived=True):
                 comps.append([kp, path, pts, oris])
         if isinstance(getattr(st, "orientation", None), AngleInterval):
             comps.append([ko, path, [], [st.orientation.start, st.orientation.end]])
-            der.setdefault("interval_length", []).append((name + "/orientation", st.orientation.length))
+            if full:
+                der.setdefault("interval_length", []).append((name + "/orientation", st.orientation.length))
 
     net = sc.lanelet_network
     for la in sorted(net.lanelets, key=lambda x: x.lanelet_id):
@@ -225,7 +269,7 @@ def walk(world, ov=None, derived=True):
         comps.append(["lanelet_center", p, [tuple(v) for v in la.center_vertices], []])
         comps.append(["lanelet_right", p, [tuple(v) for v in la.right_vertices], []])
         comps.append(["lanelet_polygon", p, [tuple(v) for v in la.polygon.vertices[:-1]], []])
-        if derived:         # Lanelet.distance is a lazily cached value: never read it before the motion (C11's business)
+        if full:            # Lanelet.distance is a lazily cached value: never read it before the motion (C11's business)
             der.setdefault("lanelet_length", []).append((_pname(p), la.distance[-1]))
             der.setdefault("lanelet_area", []).append((_pname(p), la.polygon.shapely_object.area))
         if la.stop_line is not None:
@@ -236,42 +280,42 @@ def walk(world, ov=None, derived=True):
         comps.append(["light", (SC, NET, ("light", str(s.traffic_light_id))), [tuple(s.position)], []])
     for ob in sorted(sc.static_obstacles, key=lambda x: x.obstacle_id):
         p = (SC, ("obstacle_static", str(ob.obstacle_id)))
+        if mode == "touch":
+            _touch(ob.obstacle_shape)
         state(p + (ST,), ob.initial_state, "static_init", "static_uncertain_ori")
     for ob in sorted(sc.dynamic_obstacles, key=lambda x: x.obstacle_id):
         p = (SC, ("obstacle_dynamic", str(ob.obstacle_id)))
+        if mode == "touch":
+            _touch(ob.obstacle_shape)
         unc = ob.initial_state.is_uncertain_position
         state(p + (ST,), ob.initial_state, "uncertain_pos" if unc else "dynamic_init", "uncertain_ori")
         pred = ob.prediction
         if isinstance(pred, TrajectoryPrediction):
+            if mode == "touch":
+                _touch(pred.shape)
             for i, st in enumerate(pred.trajectory.state_list):
                 state(p + (PRED, TRAJ, ("state", str(i))), st,
                       "trajectory_region" if st.is_uncertain_position else "trajectory_state", "trajectory_ori_interval")
         elif isinstance(pred, SetBasedPrediction):
-            for i, occ in enumerate(pred.occupancy_set):
-                po = p + (PRED, ("occupancy", str(i)))
-                shp = occ.shape
-                k, _, _ = _shape_data(shp, "", {})
-                ps = po + (("shape_" + k, "-"),)
-                shp = ov.get(ps, shp)
-                k2, pts, oris = _shape_data(shp, _pname(ps), der)
-                comps.append(["occ_" + k, ps, pts, oris])
+            for i, occ in enumerate(pred.occupancy_set):          # the STORED occupancies, not an occupancy query
+                k = _shape_kind(occ.shape)
+                ps = p + (PRED, ("occupancy", str(i)), ("shape_" + k, "-"))
+                shape_comp("occ_" + k, ps, ov.get(ps, occ.shape), _pname(ps))
     for ob in sorted(sc.phantom_obstacle, key=lambda x: x.obstacle_id):
         p = (SC, ("obstacle_phantom", str(ob.obstacle_id)))
         if ob.prediction is not None:
             for i, occ in enumerate(ob.prediction.occupancy_set):
                 po = p + (PRED, ("occupancy", str(i)))
-                _, pts, oris = _shape_data(occ.shape, _pname(po), der)
-                comps.append(["phantom_occ", po, pts, oris])
+                shape_comp("phantom_occ", po, occ.shape, _pname(po))
     for ob in sorted(sc.environment_obstacle, key=lambda x: x.obstacle_id):
         p = (SC, ("obstacle_environment", str(ob.obstacle_id)))
-        _, pts, oris = _shape_data(ob.obstacle_shape, _pname(p), der)
-        comps.append(["env_shape", p, pts, oris])
+        shape_comp("env_shape", p, ob.obstacle_shape, _pname(p))
     for pid in sorted(pps.planning_problem_dict):
         pp = pps.planning_problem_dict[pid]
         p = (PPS, ("planning_problem", str(pid)))
         state(p + (ST,), pp.initial_state, "pp_init", "pp_uncertain_ori")
         for i, st in enumerate(pp.goal.state_list):
-            state(p + (GOAL, ("state", str(i))), st, "goal_shape", "goal_ori", shape_kinds=True)
+            state(p + (GOAL, ("state", str(i))), st, "goal_shape", "goal_ori", group_kind="goal_lanelet")
     return comps, der
 
 
@@ -313,9 +357,11 @@ def resolve(world, path):
 
 # ---- projections ----------------------------------------------------------------------------------------------------
 def _int(v):
-    if v != int(v):
+    """before-value -> integer; stored data is exactly integral, exported corners (cos / sin inside) within 1e-9"""
+    n = round(float(v))
+    if abs(float(v) - n) > 1e-9:
         raise MachineryError("reference world coordinate is not an integer: %r" % (v,))
-    return int(v)
+    return int(n)
 
 
 def _tok(th):
@@ -346,7 +392,7 @@ def _pt_entry(case, p0, p1):
     if p1 is None or not _finite(p1[0], p1[1]):
         return [x, y, 0, 0, 0, 0]
     x1, y1 = float(p1[0]), float(p1[1])
-    un = 1 if (x1 == x and y1 == y) else 0
+    un = 1 if (x1 == float(p0[0]) and y1 == float(p0[1])) else 0        # bit-for-bit where it was
     if case["mode"] == "tok":
         den = case["rot"][2]
         tol = Fraction(1, 10 ** 9) * den * scale
@@ -419,19 +465,21 @@ def execute(case):
     mix = case["mix"]
     path = _key(case["tgt"])
     level = path[-1][0]
-    cls = angle_class(case)
-    twin = build(mix)                      # never moved: derived quantities "before" are read here
+    variant = case.get("variant", "cold")
+    cls = angle_class(case) + "/" + variant
+    twin = build(mix)                      # never moved: derived quantities and exported corners "before" are read here
     world = build(mix)
-    before, _ = walk(world, derived=False)
-    _, der0 = walk(twin)
+    before, _ = walk(world, mode="touch" if variant == "warm" else "primary")
+    tcomps, der0 = walk(twin, mode="full")
+    before += [c for c in tcomps if c[0].startswith("rect_corners/")]
     ov = {}
     exc = _apply(world, ov, path, case["t"], angle_of(case))
-    after, der1 = walk(world, ov)
+    after, der1 = walk(world, ov, mode="full")
     amap = {(c[0], c[1]): c for c in after}
     base = {"tgt": [list(p) for p in path], "t": list(case["t"]), "rot": list(case["rot"]), "mix": list(mix)}
     kinds = sorted({c[0] for c in before})
     ev = [dict(op="call", tgt=base["tgt"], mix=list(mix), exc=exc, kinds=kinds, level=level,
-               sig="%s/mix=%s" % (level, "".join(r[0] for r in ROLES if r in mix) or "-"))]
+               sig="%s/mix=%s/%s" % (level, "".join(r[0] for r in ROLES if r in mix) or "-", variant))]
     for k in kinds:
         comps = []
         for kind, p, pts, oris in before:
@@ -454,7 +502,7 @@ def execute(case):
     if case["undo"] != "none":
         for tnx, tny, tden, r in case["steps"]:
             _apply(world, ov, path, (tnx / tden, tny / tden), math.atan2(r[1], r[0]) + TWO_PI * r[3])
-        back, _ = walk(world, ov)
+        back, _ = walk(world, ov, mode="full")
         bmap = {(c[0], c[1]): c for c in back}
         for k in kinds:
             comps = []
